@@ -1,7 +1,7 @@
 package main
 
 // Static facts for C04, regenerated from /repo's sources on every run (go/ast): for each pooled type, its struct
-// fields and the fields its constructor (or, for Result, cleared()) assigns. Printed as a Coq file.
+// fields and the fields its constructor (or, for Result, cleared()) assigns on every path. Printed as a Coq file.
 
 import (
 	"bufio"
@@ -71,26 +71,7 @@ func ctorGen(_ int64, _ int, _ string, out *bufio.Writer) {
 							continue
 						}
 					}
-					set := map[string]struct{}{}
-					ast.Inspect(x.Body, func(n ast.Node) bool {
-						switch a := n.(type) {
-						case *ast.AssignStmt:
-							for _, l := range a.Lhs {
-								if name := baseField(l); name != "" {
-									set[name] = struct{}{}
-								}
-							}
-						case *ast.CallExpr:
-							if id, ok := a.Fun.(*ast.Ident); ok && id.Name == "delete" && len(a.Args) > 0 {
-								if name := baseField(a.Args[0]); name != "" {
-									set[name] = struct{}{}
-								}
-							}
-						case *ast.RangeStmt:
-							// "for k := range r.cachedX { delete(r.cachedX, k) }" is seen through the delete call
-						}
-						return true
-					})
+					set := mustAssign(x.Body.List)
 					assigned[tname] = set
 				}
 			}
@@ -127,6 +108,86 @@ func ctorGen(_ int64, _ int, _ string, out *bufio.Writer) {
 		fmt.Fprintf(out, "  (%q, %s, %s)%s\n", n, q(fields[n]), q(as), sep)
 	}
 	fmt.Fprintln(out, "].")
+}
+
+// mustAssign returns the fields assigned on every path through the statements: an assignment under a condition counts only
+// when both branches make it, a loop body does not count (it may run zero times) except the clearing idiom
+// "for k := range x.F { delete(x.F, k) }", and nothing counts after a conditional return of something other than nil
+// (the object would leave the constructor without the later assignments).
+func mustAssign(stmts []ast.Stmt) map[string]struct{} {
+	set := map[string]struct{}{}
+	for _, st := range stmts {
+		switch a := st.(type) {
+		case *ast.AssignStmt:
+			for _, l := range a.Lhs {
+				if name := baseField(l); name != "" {
+					set[name] = struct{}{}
+				}
+			}
+		case *ast.BlockStmt:
+			for k := range mustAssign(a.List) {
+				set[k] = struct{}{}
+			}
+		case *ast.IfStmt:
+			if a.Else != nil {
+				th := mustAssign(a.Body.List)
+				var el map[string]struct{}
+				switch e := a.Else.(type) {
+				case *ast.BlockStmt:
+					el = mustAssign(e.List)
+				default:
+					el = mustAssign([]ast.Stmt{e})
+				}
+				for k := range th {
+					if _, ok := el[k]; ok {
+						set[k] = struct{}{}
+					}
+				}
+			}
+			if returnsNonNil(a) {
+				return set
+			}
+		case *ast.RangeStmt:
+			if name := baseField(a.X); name != "" && len(a.Body.List) == 1 {
+				if es, ok := a.Body.List[0].(*ast.ExprStmt); ok {
+					if call, ok := es.X.(*ast.CallExpr); ok {
+						if id, ok := call.Fun.(*ast.Ident); ok && id.Name == "delete" && len(call.Args) == 2 && baseField(call.Args[0]) == name {
+							set[name] = struct{}{}
+						}
+					}
+				}
+			}
+			if returnsNonNil(a) {
+				return set
+			}
+		case *ast.ReturnStmt:
+			return set
+		default:
+			if returnsNonNil(st) {
+				return set
+			}
+		}
+	}
+	return set
+}
+
+// returnsNonNil: the statement contains a return of something other than the literal nil
+func returnsNonNil(n ast.Node) bool {
+	found := false
+	ast.Inspect(n, func(m ast.Node) bool {
+		if _, ok := m.(*ast.FuncLit); ok {
+			return false
+		}
+		if r, ok := m.(*ast.ReturnStmt); ok {
+			for _, e := range r.Results {
+				if id, ok := e.(*ast.Ident); !ok || id.Name != "nil" {
+					found = true
+				}
+			}
+		}
+		return true
+	})
+	return found
 }
 
 // baseField returns F for an expression of the form x.F, x.F.G, x.F[i] ... (x an identifier)
